@@ -5,6 +5,8 @@ import (
 	"fmt"
 	"net"
 	"net/http"
+	"net/http/httptest"
+	"strings"
 	"sync"
 	"sync/atomic"
 	"time"
@@ -285,4 +287,89 @@ func c19HttpStuckWriteTimesOut(r *Run) (ok bool) {
 		ok = false
 	}
 	return ok
+}
+
+// c19HttpLostResponse (scenario http): the receiving end takes a POST and hands the envelope to its
+// reader, and then the TCP connection dies before the response gets back to the writer. Whatever the
+// writer makes of that (an error is fine), the envelope is read on the other end exactly ONCE — a
+// transport that posts it again delivers a duplicate — and the next envelope follows it.
+func c19HttpLostResponse(r *Run) {
+	scenario := "http.lostresponse"
+	r.Progress(scenario, nil)
+	recv := c19NewNode(c19IdentityMapper)
+	defer recv.Close()
+	// in front of the receiving node: lets ServeHTTP deliver, then cuts the FIRST request's connection
+	var n atomic.Int32
+	front := httptest.NewServer(http.HandlerFunc(func(w http.ResponseWriter, req *http.Request) {
+		first := n.Add(1) == 1
+		rec := httptest.NewRecorder()
+		recv.goh.ServeHTTP(rec, req)
+		if first {
+			if hj, ok := w.(http.Hijacker); ok {
+				if c, _, err := hj.Hijack(); err == nil {
+					c.Close()
+					return
+				}
+			}
+		}
+		w.WriteHeader(rec.Code)
+	}))
+	defer front.Close()
+	sender := c19NewNode(c19IdentityMapper)
+	defer sender.Close()
+	w := sender.goh.NewConnection(strings.TrimPrefix(front.URL, "http://"))
+	// the reader on the receiving end
+	got := make(chan uint64, 8)
+	go func() {
+		var rw goat.RpcReadWriter
+		select {
+		case c := <-recv.conns:
+			rw = c.rw
+		case <-time.After(2 * hangTimeout):
+			return
+		}
+		for {
+			ctx, cancel := context.WithTimeout(context.Background(), hangTimeout)
+			e, err := rw.Read(ctx)
+			cancel()
+			if err != nil {
+				return
+			}
+			got <- e.Id
+		}
+	}()
+	env := func(id uint64) *Rpc {
+		return &Rpc{Id: id, Header: &goatorepo.RequestHeader{Source: "writer", Method: "/s/m"}}
+	}
+	ctx, cancel := context.WithTimeout(context.Background(), 2*hangTimeout)
+	defer cancel()
+	err1 := w.Write(ctx, env(1))
+	r.Count(fmt.Sprintf("%s.first_write_err=%v", scenario, err1 != nil))
+	// the connection may have been retired by the failed write: a fresh one carries the next envelope
+	w2 := sender.goh.NewConnection(strings.TrimPrefix(front.URL, "http://"))
+	w2.Write(ctx, env(2))
+	var ids []uint64
+	deadline := time.After(500 * time.Millisecond)
+collect:
+	for {
+		select {
+		case id := <-got:
+			ids = append(ids, id)
+		case <-deadline:
+			break collect
+		}
+	}
+	r.Eval(scenario, true)
+	ones := 0
+	for _, id := range ids {
+		if id == 1 {
+			ones++
+		}
+	}
+	if ones > 1 {
+		r.Violate(scenario, "ops", "an envelope that was written once was read more than once on the other end (its HTTP response was lost after delivery and the transport posted it again)", map[string]any{"requests_seen": n.Load(), "first_write_error": fmt.Sprint(err1)}, fmt.Sprint(ids), "[1 2] or [1]")
+	}
+	if ones == 0 {
+		r.Count(scenario + ".first_not_delivered")
+	}
 }
